@@ -269,8 +269,17 @@ Definition rd_case : R case :=
 Definition rd_hcase : R hcase :=
   id <- rd_z ;; a <- rd_u ;; b <- rd_u ;; h <- rd_u ;; ret {| h_id := id; h_a := a; h_b := b; h_h := h |}.
 
+(* Uint63.to_Z always runs 63 steps; this one stops at the highest set bit *)
+Fixpoint int_to_Z (fuel : nat) (i : int) : Z :=
+  match fuel with
+  | O => 0%Z
+  | S f => if Uint63.eqb i 0%uint63 then 0%Z
+           else let r := int_to_Z f (Uint63.lsr i 1%uint63) in
+                if Uint63.eqb (Uint63.land i 1%uint63) 0%uint63 then Z.double r else Z.succ_double r
+  end.
+
 Definition decode {A} (r : R A) (w : list int) : option A :=
-  match r (map Uint63.to_Z w) with
+  match r (map (int_to_Z 63) w) with
   | Some (a, []) => Some a
   | _ => None
   end.
@@ -287,6 +296,29 @@ Fixpoint decode_errors_from {A} (r : R A) (i : Z) (ws : list (list int)) : list 
 Definition decode_errors (ws : list (list int)) : list Z := decode_errors_from rd_case 0 ws.
 Definition decoded {A} (r : R A) (ws : list (list int)) : list A :=
   flat_map (fun w => match decode r w with Some c => [c] | None => [] end) ws.
+
+(* does the hypothesis of tree_conserves (node ids determine the parent on the occurring triples) hold
+   under the real hash for this profile?  0 = not checked (damaged or more than 60 triples), 1 = holds, 2 = fails *)
+Definition pd_fast (T : list (N * N * N)) : bool :=
+  let l := map (fun x => let '(p, f, d) := x in (node_id city16 p f d, p)) T in
+  forallb (fun a => forallb (fun b => implb (N.eqb (fst a) (fst b)) (N.eqb (snd a) (snd b))) l) l.
+Definition prof_hyp (fnh : list N) (p : prof) : Z :=
+  if pf_bad p then 0%Z
+  else let T := triples city16 (samples_of fnh p) in
+       if Nat.leb (length T) 60 then (if pd_fast T then 1%Z else 2%Z) else 0%Z.
+(* (profiles checked, profiles where it holds) *)
+Definition hyp_summary (ws : list (list int)) : Z * Z :=
+  let rs := flat_map (fun c => map (prof_hyp (c_fnh c)) (c_profs c)) (decoded rd_case ws) in
+  (Z.of_nat (length (filter (fun r => negb (Z.eqb r 0)) rs)), Z.of_nat (length (filter (Z.eqb 1) rs))).
+
+(* everything the check prints, decoding once: (decode errors, mismatches, spec results, hypothesis summary) *)
+Definition all_results (ws : list (list int)) : list Z * list Z * list (Z * Z) * (Z * Z) :=
+  let cs := decoded rd_case ws in
+  let rs := flat_map (fun c => map (prof_hyp (c_fnh c)) (c_profs c)) cs in
+  (decode_errors ws,
+   map c_id (filter case_mismatch cs),
+   filter (fun x => negb (Z.eqb (snd x) 0)) (map (fun c => (c_id c, case_spec c)) cs),
+   (Z.of_nat (length (filter (fun r => negb (Z.eqb r 0)) rs)), Z.of_nat (length (filter (Z.eqb 1) rs)))).
 
 Definition mismatches (ws : list (list int)) : list Z := map c_id (filter case_mismatch (decoded rd_case ws)).
 Definition spec_results (ws : list (list int)) : list (Z * Z) :=
